@@ -10,7 +10,10 @@
 // Also interposed: getentropy (same stream) and an optional deterministic heap pad.
 #define _GNU_SOURCE
 #include <errno.h>
+#include <fcntl.h>
 #include <stdint.h>
+#include <stdio.h>
+#include <sys/stat.h>
 #include <stdlib.h>
 #include <string.h>
 #include <sys/syscall.h>
@@ -94,4 +97,90 @@ int getentropy(void *buf, size_t len) {
     off += (size_t)r;
   }
   return 0;
+}
+
+/* ------------------------------------------------------------------------------------------
+ * File-fault plan (armed only by hostsim, in its forked child, around the interpreter run).
+ *
+ * Faults sit at *file offsets* of named regular files: a read or write that starts at the
+ * offset fails (EINTR once, a hard errno once, or a hard errno for ever); a transfer that
+ * would cross the offset is cut short in front of it.  Whatever the host's buffer sizes, the
+ * operation that needs the byte at the offset is the one that meets the fault.  With an empty
+ * plan `read` and `write` are plain system calls.
+ * ---------------------------------------------------------------------------------------- */
+#define ZYSIM_MAX_FILE_FAULTS 64
+struct zysim_file_fault {
+  char path[320];
+  int direction; /* 0 = read, 1 = write */
+  long offset;
+  int kind; /* 0 = EINTR once, 1 = hard once, 2 = hard for ever */
+  int error;
+  int fired;
+};
+static struct zysim_file_fault zysim_file_faults[ZYSIM_MAX_FILE_FAULTS];
+static int zysim_file_fault_count = 0;
+
+void zysim_file_plan_clear(void) { zysim_file_fault_count = 0; }
+
+int zysim_file_plan_add(const char *path, int direction, long offset, int kind, int error) {
+  if (zysim_file_fault_count >= ZYSIM_MAX_FILE_FAULTS) return -1;
+  struct zysim_file_fault *f = &zysim_file_faults[zysim_file_fault_count];
+  strncpy(f->path, path, sizeof f->path - 1);
+  f->path[sizeof f->path - 1] = 0;
+  f->direction = direction;
+  f->offset = offset;
+  f->kind = kind;
+  f->error = error;
+  f->fired = 0;
+  return zysim_file_fault_count++;
+}
+
+int zysim_file_plan_fired(int index) {
+  return (index >= 0 && index < zysim_file_fault_count) ? zysim_file_faults[index].fired : -1;
+}
+
+/* Returns 1 and sets errno if the transfer must fail now; otherwise may shrink *count. */
+static int zysim_file_fault_at(int fd, int direction, size_t *count) {
+  char link[64], path[320];
+  snprintf(link, sizeof link, "/proc/self/fd/%d", fd);
+  ssize_t length = syscall(SYS_readlink, link, path, sizeof path - 1);
+  if (length <= 0) return 0;
+  path[length] = 0;
+  long offset = -1;
+  for (int i = 0; i < zysim_file_fault_count; i++) {
+    struct zysim_file_fault *f = &zysim_file_faults[i];
+    if (f->direction != direction || strcmp(f->path, path) != 0) continue;
+    if (offset < 0) {
+      int flags = (int)syscall(SYS_fcntl, fd, F_GETFL);
+      if (direction == 1 && flags >= 0 && (flags & O_APPEND)) {
+        struct stat st;
+        if (fstat(fd, &st) != 0) return 0;
+        offset = (long)st.st_size;
+      } else {
+        offset = (long)syscall(SYS_lseek, fd, 0L, SEEK_CUR);
+      }
+      if (offset < 0) return 0;
+    }
+    if (f->offset == offset) {
+      if (f->kind == 2 || !f->fired) {
+        f->fired++;
+        errno = f->kind == 0 ? EINTR : f->error;
+        return 1;
+      }
+    } else if (f->offset > offset && (f->kind == 2 || !f->fired)) {
+      size_t room = (size_t)(f->offset - offset);
+      if (*count > room) *count = room;
+    }
+  }
+  return 0;
+}
+
+ssize_t read(int fd, void *buf, size_t count) {
+  if (zysim_file_fault_count > 0 && count > 0 && zysim_file_fault_at(fd, 0, &count)) return -1;
+  return syscall(SYS_read, fd, buf, count);
+}
+
+ssize_t write(int fd, const void *buf, size_t count) {
+  if (zysim_file_fault_count > 0 && count > 0 && zysim_file_fault_at(fd, 1, &count)) return -1;
+  return syscall(SYS_write, fd, buf, count);
 }
